@@ -28,12 +28,14 @@ func init() { families["edge"] = runEdge }
 // chain and the real HTTP transport against origins with unusual but legal behaviour.
 func runEdge(seed uint64, n int, tier string, out string, replay string) {
 	sum := hx.NewSummary("edge", seed)
-	sum.Rule = "scenarios through the full chain (error, fresh, responder, cache, proxy) and the real transport: (1) an origin that itself sends Age: every end-to-end header incl. Age reaches the client on fetch, pass and hit; (2) responses without a body (HEAD, 204, empty 200) right after a response with a body for another URL: no foreign body, no foreign Content-Length; (3) an origin that reads a request and drops the connection: every non-GET/HEAD client request reaches the origin exactly once; (4) 64 simultaneous requests on a hit-for-pass key are all at the origin at the same time; (6) keys whose URI contains percent-escapes are purged through the admin endpoint DELETE /cache (named and unnamed): the next request refetches, the un-escaped sibling URL stays a hit; (5) chunked origin responses (no Content-Length) obey the server's compress threshold and content-type filter like sized ones; n repetitions with different URLs; non-trivial = every scenario"
+	sum.Rule = "scenarios through the full chain (error, fresh, responder, cache, proxy) and the real transport: (9) multi-line Vary / Link headers and an origin X-Status under every encoding, labels checked against origin contacts; (10) queries with ';' and malformed escapes reach the origin unchanged; (11) an origin that never answers: the 300 ms proxy timeout ends the fetch and the key is served afterwards; (12) hosts ending in digits or carrying a port route by the host as sent; (1) an origin that itself sends Age: every end-to-end header incl. Age reaches the client on fetch, pass and hit; (2) responses without a body (HEAD, 204, empty 200) right after a response with a body for another URL: no foreign body, no foreign Content-Length; (3) an origin that reads a request and drops the connection: every non-GET/HEAD client request reaches the origin exactly once; (4) 64 simultaneous requests on a hit-for-pass key are all at the origin at the same time; (6) keys whose URI contains percent-escapes are purged through the admin endpoint DELETE /cache (named and unnamed): the next request refetches, the un-escaped sibling URL stays a hit; (5) chunked origin responses (no Content-Length) obey the server's compress threshold and content-type filter like sized ones; n repetitions with different URLs; non-trivial = every scenario"
 	var reqCount sync.Map // path -> *atomic.Int64
 	count := func(p string) *atomic.Int64 {
 		v, _ := reqCount.LoadOrStore(p, new(atomic.Int64))
 		return v.(*atomic.Int64)
 	}
+	var lastQuery sync.Map // "METHOD path" -> raw query as the origin received it
+	hangCh := make(chan struct{})
 	var barrierN atomic.Int64
 	barrier := make(chan struct{})
 	var barrierOnce sync.Once
@@ -48,6 +50,34 @@ func runEdge(seed uint64, n int, tier string, out string, replay string) {
 				_ = conn.Close()
 				return
 			}
+		case strings.HasPrefix(r.URL.Path, "/multi/"), strings.HasPrefix(r.URL.Path, "/multinostore/"):
+			// several header lines of one name, and an X-Status header of the origin's own (e.g. another pike instance)
+			rw.Header().Add("Vary", "Origin")
+			rw.Header().Add("Vary", "Accept-Language")
+			rw.Header().Add("Link", "</a.css>; rel=preload")
+			rw.Header().Add("Link", "</b.js>; rel=preload")
+			rw.Header().Set("Content-Type", "text/plain")
+			if strings.HasPrefix(r.URL.Path, "/multi/") {
+				rw.Header().Set("Cache-Control", "max-age=60")
+				rw.Header().Set("X-Status", "fetching")
+			} else {
+				rw.Header().Set("Cache-Control", "no-store")
+				rw.Header().Set("X-Status", "hit")
+			}
+			_, _ = rw.Write(append([]byte("multi-line headers "+r.URL.Path+"\n"), bigText...))
+			return
+		case strings.HasPrefix(r.URL.Path, "/oddquery/"):
+			lastQuery.Store(r.Method+" "+r.URL.Path, r.URL.RawQuery)
+			rw.Header().Set("Cache-Control", "no-cache")
+			_, _ = rw.Write([]byte("q"))
+			return
+		case strings.HasPrefix(r.URL.Path, "/hang/") && count(r.URL.Path).Load() == 1:
+			// accepts the request and never answers (until the family ends)
+			select {
+			case <-hangCh:
+			case <-time.After(20 * time.Second):
+			}
+			return
 		case strings.HasPrefix(r.URL.Path, "/aged/"):
 			rw.Header().Set("Age", "30")
 			rw.Header().Set("Cache-Control", "max-age=60")
@@ -117,14 +147,18 @@ func runEdge(seed uint64, n int, tier string, out string, replay string) {
 		}
 	}))
 	defer origin.Close()
+	defer close(hangCh)
 	cache.ResetDispatchers([]config.CacheConfig{{Name: "ec", Size: 2000, HitForPass: "5m"}})
 	defer cache.ResetDispatchers(nil)
 	upstream.Reset([]config.UpstreamConfig{{Name: "eu", Servers: []config.UpstreamServerConfig{{Addr: origin.URL}}}})
 	defer upstream.Reset(nil)
 	location.Reset([]config.LocationConfig{{Name: "el", Upstream: "eu"},
-		{Name: "elcc", Upstream: "eu", Prefixes: []string{"/private"}, RespHeaders: []string{"Cache-Control:public, max-age=300", "X-Loc:cc"}}})
+		{Name: "elcc", Upstream: "eu", Prefixes: []string{"/private"}, RespHeaders: []string{"Cache-Control:public, max-age=300", "X-Loc:cc"}},
+		{Name: "elto", Upstream: "eu", Prefixes: []string{"/hang"}, ProxyTimeout: "300ms"},
+		{Name: "elnode", Upstream: "eu", Hosts: []string{"node"}, RespHeaders: []string{"X-Loc:node"}},
+		{Name: "elshop", Upstream: "eu", Hosts: []string{"shop80"}, RespHeaders: []string{"X-Loc:shop80"}}})
 	defer location.Reset(nil)
-	server.Reset([]config.ServerConfig{{Addr: ":7997", Locations: []string{"el", "elcc"}, Cache: "ec", CompressMinLength: "1kb", CompressContentTypeFilter: "text|json"}})
+	server.Reset([]config.ServerConfig{{Addr: ":7997", Locations: []string{"el", "elcc", "elto", "elnode", "elshop"}, Cache: "ec", CompressMinLength: "1kb", CompressContentTypeFilter: "text|json"}})
 	defer server.Reset(nil)
 	s := server.Get(":7997")
 	e := elton.New()
@@ -135,8 +169,10 @@ func runEdge(seed uint64, n int, tier string, out string, replay string) {
 	e.Use(server.NewProxy(s))
 	e.ALL("/*", func(c *elton.Context) error { return nil })
 	var hold atomic.Bool
+	host := "edge.example"
 	do := func(method, target, acc string) *httptest.ResponseRecorder {
-		r := httptest.NewRequest(method, "http://edge.example"+target, nil)
+		r := httptest.NewRequest(method, "http://"+host+target, nil)
+		r.Host = host
 		r.RequestURI = target
 		if hold.Load() {
 			r.Header.Set("X-Hold", "1")
@@ -165,6 +201,75 @@ func runEdge(seed uint64, n int, tier string, out string, replay string) {
 			}
 		}
 		sum.Count("scenario:origin-age")
+		// (9) multi-line Vary / Link and an X-Status header of the origin's own: every header line reaches the client
+		// under every encoding, and the cache-status label stays pike's own (truthful against the origin's contact count)
+		for _, pfx := range []string{"/multi/", "/multinostore/"} {
+			p := fmt.Sprintf("%s%d", pfx, i)
+			for step, rq := range [][2]string{{"GET", "gzip"}, {"GET", "gzip"}, {"GET", "br"}, {"GET", ""}, {"POST", "gzip"}} {
+				before := count(p).Load()
+				rec := do(rq[0], p, rq[1])
+				contacted := count(p).Load() - before
+				vary := strings.Join(rec.Header().Values("Vary"), ", ")
+				link := strings.Join(rec.Header().Values("Link"), ", ")
+				if rec.Code != 200 || !strings.Contains(vary, "Origin") || !strings.Contains(vary, "Accept-Language") || !strings.Contains(link, "a.css") || !strings.Contains(link, "b.js") {
+					bad("C05+C15", "multi-line-header-lost", map[string]interface{}{"url": p, "request_no": step + 1, "method": rq[0], "accept_encoding": rq[1], "status": rec.Code, "vary": vary, "link": link, "content_encoding": rec.Header().Get("Content-Encoding")})
+				}
+				label := rec.Header().Get("X-Status")
+				wantHit := pfx == "/multi/" && rq[0] == "GET" && step > 0
+				if (label == "hit") != wantHit || (contacted == 0) != wantHit || contacted > 1 {
+					bad("C03", "cache-status-label-not-truthful", map[string]interface{}{"url": p, "request_no": step + 1, "method": rq[0], "x_status": rec.Header().Values("X-Status"), "origin_contacts_for_this_request": contacted, "the_origin_sends_its_own_x_status": true})
+				}
+			}
+		}
+		sum.Count("scenario:multi-line-headers+origin-x-status")
+		// (10) queries with ';' and malformed escapes reach the origin byte for byte (GET, HEAD, POST; cold and hit-for-pass)
+		for _, q := range []string{"b=2;a=1&z=3", "q=100%&page=2&lang=en", "a=%zz&b=1", "plain=1&x=2"} {
+			for _, method := range []string{"GET", "GET", "HEAD", "POST"} {
+				p := fmt.Sprintf("/oddquery/%d", i)
+				do(method, p+"?"+q, "")
+				got, _ := lastQuery.Load(method + " " + p)
+				if got != q {
+					bad("C15", "query-changed-on-the-way-to-the-origin", map[string]interface{}{"url": p, "method": method, "client_query": q, "origin_saw": got})
+				}
+			}
+		}
+		sum.Count("scenario:odd-queries")
+		// (11) an origin that accepts the fetching request and never answers: the location's proxy timeout (300 ms)
+		// ends the fetch with a 5xx, and the key is served normally afterwards
+		{
+			p := fmt.Sprintf("/hang/%d", i)
+			first := make(chan int, 1)
+			go func() { first <- do("GET", p, "").Code }()
+			select {
+			case code := <-first:
+				if code < 500 {
+					bad("C02", "hung-origin-answered-without-5xx", map[string]interface{}{"url": p, "status": code})
+				}
+				second := make(chan int, 1)
+				go func() { second <- do("GET", p, "").Code }()
+				select {
+				case code2 := <-second:
+					if code2 != 200 {
+						bad("C02", "key-not-served-normally-after-a-timed-out-fetch", map[string]interface{}{"url": p, "status": code2})
+					}
+				case <-time.After(4 * time.Second):
+					bad("C02", "request-after-a-timed-out-fetch-never-returned", map[string]interface{}{"url": p})
+				}
+			case <-time.After(4 * time.Second):
+				bad("C02", "fetching-request-still-pending-4s-after-a-300ms-proxy-timeout", map[string]interface{}{"url": p, "proxy_timeout": "300ms"})
+			}
+		}
+		sum.Count("scenario:hung-origin")
+		// (12) routing uses the request's host as sent: hosts ending in '8', '0' (and a port) are not shortened
+		for _, hc := range [][2]string{{"node", "node"}, {"node8", ""}, {"shop80", "shop80"}, {"shop", ""}, {"node:8080", ""}} {
+			host = hc[0]
+			rec := do("GET", fmt.Sprintf("/byhost/%d", i), "")
+			host = "edge.example"
+			if rec.Code != 200 || rec.Header().Get("X-Loc") != hc[1] {
+				bad("C14+C06", "routed-on-an-altered-host", map[string]interface{}{"url": fmt.Sprintf("/byhost/%d", i), "host": hc[0], "status": rec.Code, "location_marker_got": rec.Header().Get("X-Loc"), "location_marker_want": hc[1]})
+			}
+		}
+		sum.Count("scenario:hosts-ending-in-digits")
 		// (7) a location that adds a default "Cache-Control: public, max-age=300" cannot make an answer the
 		// origin marked private / no-store / no-cache shareable: every request reaches the origin
 		{
